@@ -8,9 +8,11 @@ import json, os, re, shutil, subprocess, sys, time, hashlib
 
 VERIF = os.path.dirname(os.path.dirname(os.path.abspath(__file__)))
 SPEC = os.path.join(VERIF, "spec")
-WORK = os.path.join(VERIF, "work")
-HARNESS = os.path.join(VERIF, "harness")
-EVID = os.path.join(VERIF, "evidence")
+# the three overrides exist for the mutant runs (a scratch copy of /repo and of the harness, see tools/mutants.py);
+# registered checks never set them
+WORK = os.environ.get("VERIF_WORK", os.path.join(VERIF, "work"))
+HARNESS = os.environ.get("VERIF_HARNESS_DIR", os.path.join(VERIF, "harness"))
+EVID = os.environ.get("VERIF_EVID", os.path.join(VERIF, "evidence"))
 REPO = os.environ.get("DESERR_REPO", "/repo")
 TLA_CP = "/opt/veriftools/tla/tla2tools.jar:/opt/veriftools/tla/CommunityModules-deps.jar"
 NCPU = os.cpu_count() or 4
